@@ -42,8 +42,10 @@ class ModelsOps:
         if isinstance(spec, OpaqueV):
             if spec.tag.startswith("typing.") or spec.tag.startswith("alias:"):
                 nm = spec.tag.split(".")[-1]
-                if nm in ("Mapping", "MutableMapping", "Dict"):
+                if nm in ("Mapping",):
                     return isinstance(v, DictV)
+                if nm in ("MutableMapping", "Dict"):
+                    return isinstance(v, DictV) and not getattr(v, "readonly", False)
                 if nm in ("Sized", "Sequence", "Collection"):
                     if isinstance(v, GenV) or (isinstance(v, ListV) and v.lazy):
                         return False
@@ -106,7 +108,9 @@ class ModelsOps:
         if isinstance(v, ListV):
             return name in ("list", "Sized", "Iterable", "Sequence")
         if isinstance(v, DictV):
-            return name in ("dict", "Mapping", "Sized", "Iterable")
+            if getattr(v, "readonly", False):
+                return name in ("Mapping", "Sized", "Iterable", "Collection", "Container")
+            return name in ("dict", "Mapping", "MutableMapping", "Sized", "Iterable", "Collection", "Container")
         if isinstance(v, ConvV):
             if name == "MoneyConverter":
                 if getattr(v, "is_money", None) is None:
@@ -176,6 +180,20 @@ class ModelsOps:
             return l is r
         if isinstance(l, EnumV):
             return l.member == r.member
+        if isinstance(l, Num) and isinstance(r, Num):
+            # identity of two numbers: possible only if they are equal; otherwise unknown (an object may or may not
+            # be the very constant it is compared with), so both outcomes are explored
+            if l is r:
+                return True
+            a, b = self.st.norm(l.rf), self.st.norm(r.rf)
+            if (a - b).is_const() and not (a - b).is_zero():
+                return False
+            c = self.I.choose(2, f"is@{getattr(node, 'lineno', '?')}", ["different", "same"])
+            if c == 1:
+                if not self.decide_cmp("==", l, r, node):
+                    raise Infeasible
+                return True
+            return False
         if isinstance(l, FuncV):
             return l.name == r.name
         if isinstance(l, PyFuncV):
@@ -394,17 +412,34 @@ class ModelsOps:
         self.I.unsupported(node, f"ordering of sort keys {a!r} and {b!r}")
 
     def simplify_numden(self, rf: RF) -> RF:
-        """numerator(x)/denominator(x) == x"""
+        """numerator(x)/denominator(x) == x, also inside products: every factor numerator(x)^k * denominator(x)^-k of a
+        quotient of monomials is replaced by x^k."""
         rf = self.st.norm(rf)
-        ats = list(rf.atoms())
-        if len(ats) == 2 and all(a[0] == "fn" for a in ats):
-            num = [a for a in ats if a[1] == "numerator"]
-            den = [a for a in ats if a[1] == "denominator"]
-            if num and den and rf.equals(RF.atom(num[0]) / RF.atom(den[0])):
-                x, y = self.st.norm(self.st.rnd_args[num[0][2]]), self.st.norm(self.st.rnd_args[den[0][2]])
-                if x.equals(y):
-                    return x
-        return rf
+        if not (rf.n.is_monomial() and rf.d.is_monomial()):
+            return rf
+        (mn, cn), = rf.n.t.items()
+        (md, cd), = rf.d.t.items()
+        exps = {}
+        for m, sgn in ((mn, 1), (md, -1)):
+            for a, e in m:
+                if e[1] != 0:
+                    return rf
+                exps[a] = exps.get(a, 0) + sgn * e[0]
+        nums = [a for a in exps if a[0] == "fn" and a[1] == "numerator" and exps[a] != 0]
+        dens = [a for a in exps if a[0] == "fn" and a[1] == "denominator" and exps[a] != 0]
+        out = rf
+        for na in nums:
+            x = self.st.norm(self.st.rnd_args[na[2]])
+            for da in dens:
+                if exps.get(na, 0) == 0 or exps.get(da, 0) == 0:
+                    continue
+                y = self.st.norm(self.st.rnd_args[da[2]])
+                if x.equals(y) and exps[na] == -exps[da]:
+                    k = exps[na]
+                    pair = RF.atom(na).pow_int(k) * RF.atom(da).pow_int(-k)
+                    out = out / pair * x.pow_int(k)
+                    exps[na] = exps[da] = 0
+        return self.st.norm(out)
 
     def num_binop(self, op, l: Num, r: Num, node) -> Num:
         self.check_float_mix(l, r, node)
@@ -1011,6 +1046,8 @@ class ModelsOps:
 
     def call_builtin(self, name, args, kwargs, node):
         I = self.I
+        if name == "staticmethod" and len(args) == 1:
+            return args[0]          # looked up through the class or an instance it is the plain function
         if name == "hasattr" and len(args) == 2 and isinstance(args[1], StrV) and args[1].const is not None:
             o, a = args[0], args[1].const
             if isinstance(o, Num):
